@@ -4,7 +4,7 @@ XML round trip at the binding layer: `EventGenerator.generate`, the abstract
 writer (events → SAX calls → ElementTree infoset, `Bind/Write.lean`) and
 `NodeParser` compose to the identity on fragment F1 (`Bind/F1.lean`).
 
-* `bind_generate_F1` (= `bind_generate_partial`) : the round trip, for every
+* `bind_generate_F1` : the round trip, for every
   F1 universe, every F1 instance, both settings of `ignoreDefaultAttributes`,
   all 8 parser configurations, every `Env`; no converter warning is issued.
 * `bind_generate_anyNamespaces` : the same without the namespace agreement condition of `ctxF1`
@@ -107,15 +107,6 @@ example : ∃ evs t, generate e0 Γ2 ⟨true⟩ v2 = .ok evs ∧ eventsTree (isD
     parseRoot e0 Γ2 ⟨true, true, true⟩ (s "Root") t = .ok (v2, 0) :=
   bind_generate_F1 e0 Γ2 ⟨true⟩ ⟨true, true, true⟩ (s "Root") v2 (by decide) (by decide)
 
-/-- `bind_generate_partial`: the provable part of the full-strength statements below -/
-theorem bind_generate_partial (e : BEnv) (Γ : Ctx) (cfg : SerCfg) (pcfg : ParserConfig) (c : ClassId)
-    (v : Val) (hΓ : ctxF1G true Γ = true) (hv : valObjG true Γ v.size none c v = true) :
-    ∃ evs t, generate e Γ cfg v = .ok evs ∧ eventsTree (isDatatype Γ) evs = .ok t ∧
-      parseRoot e Γ pcfg c t = .ok (v, 0) :=
-  bind_generate_F1 e Γ cfg pcfg c v hΓ hv
-
-example : ctxF1G true Γ2 = true ∧ valObjG true Γ2 v2.size none (s "Root") v2 = true := by decide
-
 /-! ### full strength, values: false of the model (and of the code) -/
 
 /-- the round trip for every type-correct instance (`instF1`: like `valF1` without the three
@@ -168,7 +159,7 @@ theorem attr_datatype_witness :
     generate e0 Γw2 {} w2 = .ok (evsOf Γw2 w2) ∧
     eventsTree (isDatatype Γw2) (evsOf Γw2 w2) = .ok (treeOf Γw2 w2) ∧
     parseRoot e0 Γw2 {} (s "Root") (treeOf Γw2 w2) =
-      .ok (.obj (s "Root") [(s "a", .prim (.str (s "string")))], 0) :=
+      .ok (.obj (s "Root") [(s "a", .prim (.str (s "xs:string")))], 0) :=
   ⟨by decide, by decide, rfl, rfl, rfl⟩
 
 /-- witness 3: a text var `value: Optional[str] = None` holding `""` -/
